@@ -96,6 +96,15 @@ func recoverFile(info types.SegmentInfo, wf types.WritableFile, bufPool *sync.Po
 		return nil, err
 	}
 
+	// Anything beyond the point we recovered to is the remains of a batch that
+	// was torn by a crash. It must not survive: the next batch we append may be
+	// shorter than the torn one, and a later recovery scanning past our new
+	// commit frame would then interpret what is left of the old batch (possibly
+	// from the middle of an old entry's payload) as frames.
+	if err := w.wipeStale(); err != nil {
+		return nil, err
+	}
+
 	// What we just recovered may only be in the OS page cache if the previous
 	// process died (without the machine going down) between writing a batch and
 	// fsyncing it. Readers are about to be served these entries, the WAL may
@@ -260,6 +269,37 @@ func (w *Writer) recoverTail() error {
 
 	// Since at least one commit was found, the header better be valid!
 	return validateFileHeader(*readInfo, w.info)
+}
+
+// wipeStale zeroes every non-zero byte at or after the current write offset so
+// that the file looks beyond that point as it did when it was preallocated.
+func (w *Writer) wipeStale() error {
+	buf := make([]byte, minBufSize)
+	var zeros []byte
+	offset := int64(w.writer.writeOffset)
+	for {
+		n, err := w.wf.ReadAt(buf, offset)
+		if n > 0 {
+			for _, b := range buf[:n] {
+				if b != 0 {
+					if zeros == nil {
+						zeros = make([]byte, minBufSize)
+					}
+					if _, werr := w.wf.WriteAt(zeros[:n], offset); werr != nil {
+						return werr
+					}
+					break
+				}
+			}
+			offset += int64(n)
+		}
+		if err == io.EOF || (err == nil && n == 0) {
+			return nil
+		}
+		if err != nil {
+			return err
+		}
+	}
 }
 
 // Close implements io.Closer
